@@ -88,6 +88,14 @@ def _c09_chunk(cases):
 def c09_cases(tier):
     rng = rng_for('C09', 'cases')
     names = ['x', 'foo*', 'emph']
+    # names just outside the fixed-signature table: starred and near-miss
+    # variants of its keys (read from the library at run time)
+    try:
+        from TexSoup.reader import SIGNATURES
+        for k in sorted(SIGNATURES):
+            names += [k + '*', k + 's', k.capitalize() if k.capitalize() != k else k + 'x', 'x' + k]
+    except Exception:      # noqa
+        names += ['section*', 'label*', 'textbfs', 'xin']
     cases = []
     maxb, maxr = (2, 3) if tier == 'quick' else (3, 4)
     shapes = [(nb, nr) for nb in range(maxb + 1) for nr in range(maxr + 1)]
@@ -266,6 +274,10 @@ def oracle_C10(tier):
 # ------------------------------------------------------------------- C11
 
 USER_NAMES = ['myverb', 'code', 'Raw', 'minted*', 'zz']
+# user-chosen names that collide with names the library treats specially (math
+# environments, list environments, the root's name): they must behave exactly
+# like any other user-supplied name
+USER_NAMES += ['equation', 'align*', 'math', 'itemize', 'document', 'split']
 ENCLOSING = [('', ''), ('\\begin{a}', '\\end{a}'),
              ('\\begin{a}\\begin{b} t ', ' u \\end{b}\\end{a}'),
              ('pre \\k{v} ', ' post'), ('\\begin{center}\n', '\n\\end{center} $m$')]
@@ -290,6 +302,25 @@ def verb_bodies(rng, n, name):
             b = '.' + b
         res.append(b)
     return res
+
+
+def _rename_nf(nf, old, new):
+    """rename environment `old` to `new` in a normal form (and the name where
+    it occurs inside text leaves), leaving kind tags alone"""
+    out = []
+    for it in nf:
+        tag = it[0]
+        if tag in ('t', 'c'):
+            out.append((tag, it[1].replace(old, new)))
+        elif tag in ('env', 'cmd'):
+            nm = new if (tag == 'env' and it[1] == old) else it[1]
+            out.append((tag, nm, [(k, _rename_nf(b, old, new)) for k, b in it[2]],
+                        _rename_nf(it[3], old, new)))
+        elif tag in ('math', 'group'):
+            out.append((tag, it[1], _rename_nf(it[2], old, new)))
+        else:
+            out.append(it)
+    return out
 
 
 def _c11_chunk(cases):
@@ -330,7 +361,7 @@ def _c11_chunk(cases):
             if 'verbatim' not in body:
                 n1 = nf_of_contents(soup.expr._contents)
                 n2 = nf_of_contents(s2.expr._contents) if s2 is not None else e2
-                if json.dumps(n1).replace(name, b2) != json.dumps(n2):
+                if s2 is None or json.dumps(_rename_nf(n1, name, b2)) != json.dumps(n2):
                     r.fail(Failure('C11', 'user-name-differs-from-builtin', src,
                                    repr(n1)[:300], repr(n2)[:300]))
             # without the option the body is parsed normally
